@@ -44,6 +44,8 @@ type RunReport struct {
 	Log       []string       `json:"log,omitempty"`
 	Sample    []string       `json:"sample,omitempty"`
 	Calls     int            `json:"calls"`
+	Goroutines int           `json:"goroutines"`
+	RSSMB     int            `json:"rss_mb"`
 }
 
 var progress atomic.Int64
@@ -118,7 +120,22 @@ func RunOne(t *testing.T, cfg RunConfig, replay []int, withTrace bool) (rep *Run
 		})
 	}()
 	rep.WallMs = wallNow() - t0
+	rep.Goroutines = runtime.NumGoroutine()
+	rep.RSSMB = rssMB()
 	return rep
+}
+
+func rssMB() int {
+	b, err := os.ReadFile("/proc/self/statm")
+	if err != nil {
+		return 0
+	}
+	f := strings.Fields(string(b))
+	if len(f) < 2 {
+		return 0
+	}
+	n, _ := strconv.Atoi(f[1])
+	return n * 4 / 1024
 }
 
 func envInt(name string, def int) int {
@@ -181,7 +198,7 @@ func TestSim(t *testing.T) {
 		t.Skip("VERIF_MODE not set")
 	}
 	utilruntime.ReallyCrash = false
-	debug.SetGCPercent(400)
+	debug.SetGCPercent(200)
 	startWatchdog()
 	out := bufio.NewWriter(os.Stdout)
 	defer out.Flush()
@@ -193,7 +210,7 @@ func TestSim(t *testing.T) {
 	}
 	switch mode {
 	case "batch":
-		cfg := RunConfig{Profile: os.Getenv("VERIF_PROFILE"), Property: os.Getenv("VERIF_PROPERTY"), Variant: os.Getenv("VERIF_VARIANT")}
+		cfg := RunConfig{Profile: os.Getenv("VERIF_PROFILE"), Property: os.Getenv("VERIF_PROPERTY"), Variant: os.Getenv("VERIF_VARIANT"), Sweep: os.Getenv("VERIF_SWEEP_CTRLS")}
 		from, n := envInt("VERIF_FROM", 1), envInt("VERIF_N", 1)
 		nofaultEvery := envInt("VERIF_NOFAULT_EVERY", 4)
 		deadline := wallNow() + float64(envInt("VERIF_BUDGET_S", 3600))*1000
@@ -208,6 +225,11 @@ func TestSim(t *testing.T) {
 			rep := RunOne(t, c, nil, os.Getenv("VERIF_TRACE") != "")
 			emit(rep)
 			if rep.Fatal != "" {
+				break
+			}
+			if rep.RSSMB > envInt("VERIF_MAX_RSS_MB", 2500) && i+1 < n {
+				// bound memory: the driver restarts a fresh process for the remaining seeds
+				emit(map[string]interface{}{"recycle_from": from + i + 1, "recycle_n": n - i - 1})
 				break
 			}
 		}
